@@ -297,6 +297,11 @@ func vfC13Junk(kind string, ch vfC13Hello, seq uint64) []byte {
 		body := bytes.Repeat([]byte{7}, 12)
 
 		return vfLegacyRecord(22, ch.RecVer, 0, seq, nil, -1, vfHSFragment(20, 12, 0, 0, 12, body))
+	case "finished-continuation-seq0":
+		// ... and does so with a fragment that is not the first of its message (offset 12 of 24)
+		body := bytes.Repeat([]byte{7}, 12)
+
+		return vfLegacyRecord(22, ch.RecVer, 0, seq, nil, -1, vfHSFragment(20, 24, 0, 12, 12, body))
 	case "empty-fragment-seq0":
 		return vfLegacyRecord(22, ch.RecVer, 0, seq, nil, -1, vfHSFragment(1, uint32(len(ch.Body)), 0, 0, 0, nil))
 	case "empty-ack":
@@ -666,7 +671,7 @@ func vfC13Cases() []vfC13Case {
 				cases = append(cases, vfC13Case{Cfg: cfg, Pre: 3, SilenceA: true, Mutant: m.Name, Reps: 1, Paced: true})
 			}
 		}
-		for _, j := range []string{"garbage", "finished", "client-key-exchange", "alert-warning", "hello-fragment", "finished-seq0", "empty-fragment-seq0", "empty-ack", "ack-of-record-0"} {
+		for _, j := range []string{"garbage", "finished", "client-key-exchange", "alert-warning", "hello-fragment", "finished-seq0", "finished-continuation-seq0", "empty-fragment-seq0", "empty-ack", "ack-of-record-0"} {
 			cases = append(cases, vfC13Case{Cfg: cfg, Pre: 2, Junk: j, Mutant: "cookie-flip-last", Reps: 1})
 			cases = append(cases, vfC13Case{Cfg: cfg, Pre: 1, Junk: j, SilenceA: true, Mutant: "valid", Reps: 1})
 		}
@@ -708,7 +713,7 @@ func TestVF_C13(t *testing.T) {
 		// PRNG scripts on top of the exhaustive table
 		muts := vfC13Mutants()
 		cfgs := vfC13Cfgs()
-		junk := []string{"", "", "garbage", "finished", "client-key-exchange", "alert-warning", "hello-fragment", "finished-seq0", "empty-fragment-seq0", "empty-ack", "ack-of-record-0"}
+		junk := []string{"", "", "garbage", "finished", "client-key-exchange", "alert-warning", "hello-fragment", "finished-seq0", "finished-continuation-seq0", "empty-fragment-seq0", "empty-ack", "ack-of-record-0"}
 		for i := 0; i < 30000; i++ {
 			r := vfRand("C13", i)
 			cases = append(cases, vfC13Case{
